@@ -102,7 +102,10 @@ let config_of (h : (string, string) Hashtbl.t) : config =
   { c_version = version_of_int (int_of_string (g "v"));
     c_min = n_of_hex (Printf.sprintf "%x" (int_of_string (g "min")));
     c_max = n_of_hex (Printf.sprintf "%x" (int_of_string (g "max")));
-    c_mutators = (if g "muts" = "-" then [] else List.map mutator_of_string (String.split_on_char ',' (g "muts")));
+    (* `sleep:<ms>` is the harness's no-op mutator of the slow-motion runs: it draws nothing and changes nothing *)
+    c_mutators = (if g "muts" = "-" then []
+                  else List.map mutator_of_string
+                         (List.filter (fun n -> not (String.length n > 6 && String.sub n 0 6 = "sleep:")) (String.split_on_char ',' (g "muts"))));
     c_rate = n_of_hex (g "rate");
     c_unsafe = (g "unsafe" = "1"); c_ext = (g "ext" = "1"); c_buf = (g "buf" = "1") }
 
